@@ -32,7 +32,12 @@ RULE = (
     "default type must not, a strict success must equal the default render; stream filterargs (exhaustive over the filter "
     "register): a missing variable in every positional and keyword argument position of every registered filter (argument "
     "lists found by trying candidates on defined inputs) — StrictUndefined must raise UndefinedError unless the "
-    "(filter, position) pair is in the reviewed table ARG_UNTOUCHED (default's argument and allow_false). Non-trivial: the program touches at least one missing "
+    "(filter, position) pair is in the reviewed table ARG_UNTOUCHED (default's argument and allow_false); stream shapes "
+    "(exhaustive over the filter register, model): the row of Model/FilterRegistry.lean for every registered filter — which "
+    "kinds raise UndefinedError on a missing left value and on a missing value in each positional argument, and which plain "
+    "value (nil, '', 0, [], 1) the missing operand stands for under the default type; stream lax (model): top-level "
+    "text/output/assign nodes under Mode.LAX and the four types against renderLax, first case = the kernel-decided "
+    "counter-example to refinement in LAX mode; oracle: a strict-mode success equals the lax output. Non-trivial: the program touches at least one missing "
     "variable/path (the default and the StrictUndefined outcomes differ, or a strict kind succeeded on a program whose "
     "data had deletions)."
 )
@@ -44,9 +49,9 @@ TRUSTED_BASE = [
     "filters outside the eight modelled ones are covered by the abstract-filter hypothesis `Refines` and sampled by the refine/constructs streams only",
 ]
 ASSUMPTIONS = [
-    "Mode.STRICT (the default tolerance): under LAX/WARN an UndefinedError is swallowed per top-level node by design (C03), so 'rendering succeeds' is read for Mode.STRICT",
+    "Mode.STRICT (the default tolerance): under LAX/WARN an UndefinedError is swallowed per top-level node by design (C03), so 'rendering succeeds' is read for Mode.STRICT; the refinement is false under LAX (Props.C16.lax_refinement_counterexample, replayed by the lax stream) and what holds there is lax_agrees_when_no_node_raises",
     "render data contains no Undefined objects (the quantifier: data from which keys and sub-paths were removed); undefined objects are never nested inside containers in the model",
-    "the theorems quantify over every filter table satisfying `Refines`; that the ~90 real filters satisfy it is shown for eight concrete models and sampled for the rest",
+    "the theorems quantify over every filter table satisfying `Refines`; every registered filter is given a shape (operand conversions = fixed poke sequences, then an arbitrary computation on plain data) for which Refines is proved; that the real filter has that shape is what the shapes stream checks (raise pattern per operand and kind, stand-for value)",
     "'the default undefined type never raises' is read as: never raises UndefinedError (slice/truncate reject an undefined argument with FilterArgumentError under every type)",
 ]
 MANIFEST = {
@@ -917,5 +922,176 @@ class FilterArgStream(Stream):
         return []
 
 
+# ---- the shape table of every registered filter ----------------------------------------------
+SUBST = [("nil", None), ("''", ""), ("0", 0), ("e", []), ("1", 1)]
+
+
+class ShapeStream(Stream):
+    """Model/FilterRegistry.lean against the code: for every registered filter, which operand positions raise
+    UndefinedError under which undefined type, and which plain value a missing operand stands for."""
+
+    name = "shapes"
+    exhaustive = True
+    parallel = True
+
+    def cases(self, ctx):
+        from liquid import Environment
+
+        return [{"filter": n} for n in sorted(Environment(extra=True).filters)]
+
+    def _discover(self, name):
+        from liquid import Environment
+
+        env = Environment(extra=True)
+        data = dict(ARG_DATA, e=[])
+        found: dict = {}
+        for inp in ARG_INPUTS:
+            for args in ARG_LISTS:
+                if len(args) in found:
+                    continue
+                try:
+                    env.from_string("{{ " + inp + " | " + name + (": " + ", ".join(args) if args else "") + " }}").render(**copy.deepcopy(data))
+                    found[len(args)] = (inp, args)
+                except Exception:
+                    pass
+        return found
+
+    def impl(self, case):
+        name = case["filter"]
+        found = self._discover(name)
+        if not found:
+            return {"found": False}
+        data = dict(ARG_DATA, e=[])
+        prog = {"extra": True, "partials": {}, "flags": {}, "autoescape": False}
+        n = max(found)
+        inp, args = found[n]
+        a0 = found[min(found)][1]
+
+        def pattern(tpl):
+            outs = {k: render_kind(tpl, data, k, prog=prog) for k in KINDS}
+            return [outs[k].get("err") == "UndefinedError" for k in KINDS], outs
+
+        def tpl_of(i, a):
+            return "{{ " + i + " | " + name + (": " + ", ".join(a) if a else "") + " }}"
+
+        in_pat, in_outs = pattern(tpl_of("m", a0))
+        in_cands = [v for (lit, v) in SUBST if render_kind(tpl_of(lit, a0), data, "default", prog=prog) == in_outs["default"]]
+        refine = refine_violation("shapes", in_outs)
+        rows = []
+        for i in range(n):
+            a2 = list(args)
+            a2[i] = "m"
+            pat, outs = pattern(tpl_of(inp, a2))
+            refine = refine or refine_violation("shapes", outs)
+            cands = []
+            for lit, v in SUBST:
+                a3 = list(args)
+                a3[i] = lit
+                if render_kind(tpl_of(inp, a3), data, "default", prog=prog) == outs["default"]:
+                    cands.append(v)
+            rows.append({"raises": pat, "cands": cands})
+        return {"found": True, "input": in_pat, "in_cands": in_cands, "in_ok": "ok" in in_outs["default"], "args": rows,
+                "refine": list(refine) if refine else None}
+
+    def line_obs(self, case, obs):
+        if not obs.get("found"):
+            return None
+        return ["c16shape", case["filter"], obs["in_cands"], [r["cands"] for r in obs["args"]]]
+
+    def compare_view(self, case, obs):
+        # default: not a shape (kind dependent); its input row is compared, its argument is the reviewed exception
+        return {"input": obs["input"], "args": [{"raises": r["raises"], "as": True} for r in obs["args"]]}
+
+    def canon_model(self, case, mobs):
+        if not isinstance(mobs, dict) or "input" not in mobs:
+            return mobs
+        args = [{"raises": a["raises"], "as": True if a["as"] is None else a["as"]} for a in mobs["args"]]
+        inp = mobs["input"]
+        if mobs.get("special"):  # `default`: StrictUndefined raises through __liquid__, StrictDefaultUndefined is forced
+            inp = [False, True, False, False]
+        return {"input": inp, "args": args, "_inAs": mobs["inAs"]} if mobs["inAs"] is False else {"input": inp, "args": args}
+
+    def oracle(self, case, obs):
+        if obs.get("refine"):
+            return tuple(obs["refine"])
+        return None
+
+    def nontrivial(self, case, obs):
+        return bool(obs.get("found"))
+
+    def tags(self, case, obs):
+        if not obs.get("found"):
+            return ["not-driven"]
+        return [f"args{len(obs['args'])}", "input-deep" if obs["input"][2] else "input-shallow"]
+
+    def shrink_candidates(self, case):
+        return []
+
+
+# ---- Mode.LAX --------------------------------------------------------------------------------
+LAX_WITNESS = {"data": {}, "stmts": [["text", "a"], ["out", [["path", "m", []], [["append", [["lit", "x"]]]]]], ["text", "b"]]}
+
+
+class LaxStream(Stream):
+    """Top-level text / output / assign nodes under Mode.LAX and each undefined type, against `renderLax`.
+    The refinement is *not* claimed there (Props.C16.lax_refinement_counterexample is the first case); the oracle is
+    what does hold: when the strict-mode render succeeds, the lax render gives the same output."""
+
+    name = "lax"
+    parallel = True
+
+    def cases(self, ctx):
+        rng = ctx.rng_for("lax")
+        out = [dict(LAX_WITNESS, kind=k) for k in KINDS]
+        for i in range(ctx.scale(300, 3000)):
+            r = rng.fork(str(i))
+            full = gen_model_data(r)
+            g = ModelGen(r, full)
+            stmts = []
+            for _ in range(r.range(2, 6)):
+                k = r.below(10)
+                stmts.append(["text", r.choice(TEXTS)] if k < 2 else (["assign", r.choice(["q", "a", "zz"]), g.fexpr()] if k < 4 else ["out", g.fexpr()]))
+            data = delete_paths(r, full)
+            for k in KINDS:
+                out.append({"kind": k, "data": data, "stmts": stmts})
+        return out
+
+    def impl(self, case):
+        from liquid import Environment, Mode
+
+        src = "".join(stmt_src(s) for s in case["stmts"])
+
+        def lax():
+            env = Environment(undefined=undefined_class(case["kind"]), tolerance=Mode.LAX)
+            return env.from_string(src).render(**copy.deepcopy(case["data"]))
+
+        return {"lax": coarse(outcome(lax)), "strict_mode": render_kind(src, case["data"], case["kind"]), "src": src}
+
+    def line(self, case):
+        return ["c16renderlax", case["kind"], data_json(case["data"]), case["stmts"]]
+
+    def compare_view(self, case, obs):
+        return obs["lax"]
+
+    def oracle(self, case, obs):
+        if "ok" not in obs["lax"]:
+            return (f"lax|{case['kind']}|raises", f"Mode.LAX render raised: {obs['lax']}")
+        if "ok" in obs["strict_mode"] and obs["strict_mode"] != obs["lax"]:
+            return (f"lax|{case['kind']}|differs-from-strict-mode-success", f"strict mode gives {obs['strict_mode']}, lax mode {obs['lax']}")
+        return None
+
+    def nontrivial(self, case, obs):
+        return "err" in obs["strict_mode"]
+
+    def tags(self, case, obs):
+        return [case["kind"] + ":" + ("dropped-a-node" if "err" in obs["strict_mode"] else "no-error")]
+
+    def shrink_candidates(self, case):
+        for i in range(len(case["stmts"])):
+            d = dict(case)
+            d["stmts"] = case["stmts"][:i] + case["stmts"][i + 1 :]
+            yield d
+
+
 def streams(ctx):
-    return [PokeStream(), ModelStream(), RefineStream(), ConstructStream(), EngineStream(), FilterArgStream()]
+    return [PokeStream(), ModelStream(), RefineStream(), ConstructStream(), EngineStream(), FilterArgStream(), ShapeStream(), LaxStream()]
